@@ -35,11 +35,7 @@ func pathKey(p []int) string {
 	return strings.Join(s, ".")
 }
 
-// the encoded size as the generated code computes it: finding G6 (a proto3 implicit-presence float holding
-// -0.0 is not emitted) is taken into account so that the mirror knows whether a size of 0 was "cached"
-func trueSize(m0 protoreflect.Message) int {
-	m := proto.Clone(m0.Interface()).ProtoReflect()
-	stripNegZero(m)
+func trueSize(m protoreflect.Message) int {
 	b, err := proto.MarshalOptions{AllowPartial: true, Deterministic: true}.Marshal(m.Interface())
 	hx.Must(err)
 	return len(b)
@@ -221,7 +217,7 @@ func streamHistory(r *hx.Rng, cfs []*cfile, bs *builtSet) {
 						setCtx(bv, md, canonical(h.mirror))
 						hc.ext = append(hc.ext, failCtx.suffix)
 						failCtx.suffix = ""
-						if hc.qAt < 0 && (hc.staleAt >= 0 || (nz && tok == "RS" && google)) {
+						if hc.qAt < 0 && hc.staleAt >= 0 {
 							hc.qAt = i
 						}
 						hc.toks = append(hc.toks, tok)
@@ -353,33 +349,6 @@ func streamHistory(r *hx.Rng, cfs []*cfile, bs *builtSet) {
 			}
 		}
 	}
-}
-
-func stripNegZero(m protoreflect.Message) {
-	m.Range(func(fd protoreflect.FieldDescriptor, v protoreflect.Value) bool {
-		switch {
-		case fd.IsMap():
-			if fd.MapValue().Kind() == protoreflect.MessageKind {
-				v.Map().Range(func(_ protoreflect.MapKey, mv protoreflect.Value) bool {
-					stripNegZero(mv.Message())
-					return true
-				})
-			}
-		case fd.IsList():
-			if fd.Kind() == protoreflect.MessageKind {
-				for i := 0; i < v.List().Len(); i++ {
-					stripNegZero(v.List().Get(i).Message())
-				}
-			}
-		case fd.Kind() == protoreflect.MessageKind:
-			stripNegZero(v.Message())
-		case (fd.Kind() == protoreflect.FloatKind || fd.Kind() == protoreflect.DoubleKind) && !fd.HasPresence():
-			if v.Float() == 0 {
-				m.Clear(fd)
-			}
-		}
-		return true
-	})
 }
 
 func fileHasExt(c *cfile) bool {
